@@ -27,7 +27,7 @@ META = dict(
          "non-negativity; per-account balance change = net Transfer events; a native movement whose post-effect fails (the 513th notification of an execution since Echidna: Transfer, Vote, CandidateStateChanged, a notification of the receiver's callback or of the calling contract before / after the call) faults the execution with NOTHING changed, otherwise the execution is the native method's own outcome (all-or-nothing theorem; the reading drop the event, keep the balances, answer false is refuted); and hypothesis H3 decided: every voted key has a candidate record, so crediting cannot fail "
          "after the debit and a 'false' transfer changes nothing. The model follows the code's mechanism (updateAccBalance/increaseBalance/ModifyAccountVotes/"
          "dropCandidateIfZero/PostPersist rewards, GAS.OnPersist and Notary.OnPersist with the NotaryAssisted fee flow) and is tied to the real chain by comparing, after EVERY block of random neotest histories, the decoded NEO/GAS/"
-         "Notary/Policy storage, Transfer events and transaction results with the model, plus direct evaluation of every clause on the real dump. Histories contain executions with 505..552 notifications of a helper contract before and after a NEO / GAS transfer (incl. to contracts whose onNEP17Payment accepts, throws, aborts, never returns, is missing or emits up to 999 notifications itself), a vote and a registration by payment, so that the 513th notification falls before, on and after every post-effect; for these the script returns balanceOf before / answer / balanceOf after and the harness evaluates per execution: answer true iff the sender was debited by the amount iff the Transfer event was emitted; histories on a chain without Echidna (no limit: must halt with true) are evaluated in Go only. "
+         "Notary/Policy storage, Transfer events and transaction results with the model, plus direct evaluation of every clause on the real dump. Histories contain executions with 505..552 notifications of a helper contract before and after a NEO / GAS transfer (incl. to contracts whose onNEP17Payment accepts, throws, aborts, never returns, is missing or emits up to 999 notifications itself), a vote and a registration by payment, so that the 513th notification falls before, on and after every post-effect; for these the script returns balanceOf before / answer / balanceOf after and the harness evaluates per execution: answer true iff the sender was debited by the amount iff the Transfer event was emitted; histories on a chain without Echidna (no limit: must halt with true) are evaluated in Go only. One history in eight is built around two receiver contracts whose onNEP17Payment re-enters the native contract in progress as configured in their storage (deposit the GAS just received to Notary for the withdrawing / another account, pass the same token on or back, vote / unvote, withdraw their own deposit), placed as receivers of Notary.withdraw, NEO / GAS transfers and GAS claims; every clause is evaluated on the raw dump after every block (Go only, case CDirect: the model does not follow contract code; an abstract Notary ledger with arbitrary callbacks is proved, theorems _partial). "
          "Partial: Oracle and Treasury flows are not modelled.",
     note="Trusted: Coq kernel + vm_compute, the hand-written model (tied by differential comparison only), the Go harness and its storage decoding, ./check. "
          "Assumed: configuration well-formedness (checked per case), Notary-sent transactions carry the NotaryAssisted attribute with a payer other than the contract, constant committee size.",
